@@ -572,7 +572,14 @@ Lemma logger_time_gen :
   time_len_zone = 17 /\ time_len_utc = 17 /\ us_len_zone = 8 /\ us_len_utc = 9 /\
   (17 < Z.to_nat Logging_t_time_size)%nat /\ (1 <= Z.to_nat Logging_errnobuf_size)%nat.
 Proof.
-  split; [reflexivity|]. split; [intros d; reflexivity|]. split; [intros us; reflexivity|].
+  assert (P1 : parse_fmt time_format =
+               [PDec (Some x20) 4; PDec (Some x30) 2; PDec (Some x30) 2; PLit x20; PDec (Some x30) 2; PLit x3a;
+                PDec (Some x30) 2; PLit x3a; PDec (Some x30) 2]) by (vm_compute; reflexivity).
+  assert (P2 : parse_fmt us_format_zone = [PLit x2e; PDec (Some x30) 6; PLit x20]) by (vm_compute; reflexivity).
+  assert (P3 : parse_fmt us_format_utc = [PLit x2e; PDec (Some x30) 6; PLit x5a; PLit x20]) by (vm_compute; reflexivity).
+  split; [reflexivity|]. unfold mini_printf. rewrite P1, P2, P3.
+  split; [intros d; unfold time_text, dt_fields; cbn [render_pieces app]; rewrite app_nil_r; reflexivity|].
+  split; [intros us; reflexivity|].
   split; [intros us; reflexivity|]. repeat (split; [reflexivity|]).
   split; apply Nat.ltb_lt; vm_compute; reflexivity.
 Qed.
@@ -749,6 +756,85 @@ Section Line.
     destruct (Z.eqb_spec (lq_seconds r) (lastSecond th)) as [E|E]; cbn [fst lastSecond t_time].
     - split; [congruence|exact (Hc E)].
     - split; [reflexivity|]. apply firstn_all2. rewrite time_text_length by exact Hdt. lia.
+  Qed.
+
+  (* ---- a thread logging a sequence of lines: the per-thread second cache ------------------- *)
+
+  Fixpoint log_lines (th : tls) (rs : list logreq) : list (res fbuf) :=
+    match rs with
+    | [] => []
+    | r :: rest => snd (log_line fmt_g th r) :: log_lines (fst (log_line fmt_g th r)) rest
+    end.
+
+  (* the zone is not changed while the thread logs: the broken-down time of every line is ONE
+     function F of its second (toUtcTime, or toLocalTime of the one configured zone); no line is
+     stamped with second 0 of the epoch (the zero-initialised cache is labelled 0) *)
+  Definition line_ok (F : Z -> datetime) (r : logreq) : Prop :=
+    req_ok r /\ lq_dt r = F (lq_seconds r) /\ lq_seconds r <> 0 /\
+    (length (line_text r) + kMaxNumericSize <= kSmallBuffer)%nat.
+  Definition cache_for (F : Z -> datetime) (th : tls) : Prop :=
+    lastSecond th <> 0 -> firstn 17 (t_time th) = time_text (F (lastSecond th)).
+
+  Lemma cache_for_tls0 F : cache_for F tls0.
+  Proof. intros H. exfalso. apply H. reflexivity. Qed.
+
+  Lemma lines_shape F rs : forall th, cache_for F th -> Forall (line_ok F) rs ->
+    Forall2 (fun r out => exists b, out = Ok b /\ data b = line_text r) rs (log_lines th rs).
+  Proof.
+    induction rs as [|r rest IH]; intros th Hc Hok; cbn [log_lines]; [constructor|].
+    inversion Hok as [|? ? [Hr [Hd [Hs Hfit]]] Hrest]; subst.
+    assert (Hcoh : cache_coherent th r).
+    { intros E. rewrite Hd, E. apply Hc. rewrite <- E. exact Hs. }
+    constructor.
+    - destruct (line_shape th r Hcoh Hr Hfit) as [b [E [D _]]]. exists b. split; assumption.
+    - apply IH; [|exact Hrest]. destruct (cache_after th r Hcoh (proj1 Hr)) as [L T].
+      intros _. rewrite T, L, Hd. reflexivity.
+  Qed.
+
+  (* ---- how long a line is: every field bounded, the errno text by strerror_tl's buffer --------- *)
+
+  Lemma pad_length_max c w s : length (pad c w s) = Nat.max w (length s).
+  Proof. unfold pad. rewrite app_length, repeat_length. lia. Qed.
+
+  Lemma int32_text_length v : - 2 ^ 31 <= v < 2 ^ 31 -> (length (convert v) <= 11)%nat.
+  Proof.
+    intros H. pose proof (convert_length v 10 ltac:(lia) ltac:(change (10 ^ Z.of_nat 10) with 10000000000; lia)) as L.
+    destruct (v <? 0); lia.
+  Qed.
+
+  Lemma line_text_length r : req_ok r ->
+    length (line_text r) =
+    (17 + 1 + 6 + (if lq_zone r then 1 else 2) + length (tid_text (lq_tid r)) + 6 + length (errno_text r) +
+     length (func_text r) + total_len fmt_g (lq_msg r) + 3 + length (basename (until_nul (lq_path r))) + 1 +
+     length (convert (lq_line r)) + 1)%nat.
+  Proof.
+    intros [Hdt [_ [_ [_ Hus]]]]. unfold line_text, total_len, zone_mark.
+    rewrite !app_length, time_text_length by exact Hdt.
+    rewrite (fmt_d_length x30 6) by (try lia; change (10 ^ Z.of_nat 6) with 1000000; lia).
+    rewrite level_name_length. destruct (lq_zone r); cbn [length]; lia.
+  Qed.
+
+  (* strerror_tl returns a C string held in t_errnobuf (Gen_C17.Logging_errnobuf_size bytes): at most
+     size - 1 characters.  With thread ids below 10^7 (kernel limit 2^22) the fields other than
+     function name, message and base name take at most 76 + size characters. *)
+  Lemma line_fits r : req_ok r -> 0 <= lq_tid r < 10 ^ 7 ->
+    (match lq_errno r with Some (_, txt) => (length (until_nul txt) < Z.to_nat Logging_errnobuf_size)%nat | None => True end) ->
+    (length (func_text r) + total_len fmt_g (lq_msg r) + length (basename (until_nul (lq_path r))) +
+     (76 + Z.to_nat Logging_errnobuf_size) + kMaxNumericSize <= kSmallBuffer)%nat ->
+    (length (line_text r) + kMaxNumericSize <= kSmallBuffer)%nat.
+  Proof.
+    intros Hok Htid Herr Hfit. rewrite line_text_length by exact Hok.
+    destruct Hok as [_ [_ [He [Hl _]]]].
+    assert (T : (length (tid_text (lq_tid r)) <= 8)%nat).
+    { unfold tid_text, fmt_d. rewrite app_length, pad_length_max. cbn [length].
+      pose proof (convert_length (lq_tid r) 7 ltac:(lia) ltac:(change (10 ^ Z.of_nat 7) with (10 ^ 7); lia)) as L.
+      destruct (Z.ltb_spec (lq_tid r) 0); lia. }
+    assert (E : (length (errno_text r) <= Z.to_nat Logging_errnobuf_size + 20)%nat).
+    { unfold errno_text. destruct (lq_errno r) as [[e txt]|]; [|cbn [length]; lia].
+      rewrite !app_length. cbn [length]. pose proof (int32_text_length e He). lia. }
+    pose proof (int32_text_length (lq_line r) Hl) as L.
+    set (S := Z.to_nat Logging_errnobuf_size) in *.
+    destruct (lq_zone r); lia.
   Qed.
 End Line.
 
